@@ -31,4 +31,9 @@ TEXT = {
   "note": "Self-consistency oracle (no reference semantics needed). Programs that exhaust the 40000-instruction budget are skipped and counted.",
   "technique": "six-way twin-execution monitor (drive mode x recording) over generated programs",
  },
+ "C02": {
+  "level": "Exploration: generated programs over the full instruction repertoire are single-stepped with recording on while the dump hook records every state; a seeded rnext/next walk, a full rewind and a full replay must reproduce the recorded dump (ip, data stack, frames with locals, loop records, builder marks, all variables) at every position.",
+  "note": "Self-consistency oracle over the verif_dump hook; histories <= 400 steps; every ReverseStep variant and every emitted opcode must be observed or the run is inconclusive.",
+  "technique": "recorded-history monitor: dump after every step, checked against itself under random rewind/replay walks",
+ },
 }
